@@ -5,7 +5,7 @@ const char* const q120_kernel_name[N_KERNELS] = {"q120_vec_mat1col_product_baa",
 // not declared in any header of the library
 extern void q120_vec_mat1col_product_bbc_ref_old(q120_mat1col_product_bbc_precomp*, const uint64_t, q120b* const, const q120b* const, const q120c* const);
 extern void q120x2_vec_mat2cols_product_bbc_avx2_old(q120_mat1col_product_bbc_precomp*, const uint64_t, q120b* const, const q120b* const, const q120c* const);
-const char* const q120_fam_name[QF_N] = {"random", "noncanonical", "allmax", "alternate", "singlemax", "nearmultiple", "word32", "word32max", "mixedwidth", "high32"};
+const char* const q120_fam_name[QF_N] = {"random", "noncanonical", "allmax", "alternate", "singlemax", "nearmultiple", "word32", "word32max", "mixedwidth", "high32", "lanesplit"};
 
 static uint64_t near_mult(rng_t* r, uint64_t q, unsigned maxbits) {
   // t*q*2^j - 1 below 2^maxbits
@@ -20,7 +20,7 @@ static uint64_t near_mult(rng_t* r, uint64_t q, unsigned maxbits) {
 }
 
 void q120_gen_a(rng_t* r, int fam, uint64_t n, uint64_t* x) {
-  if (fam == QF_WORD32 || fam == QF_MIXEDWIDTH || fam == QF_HIGH32) fam = QF_NONCANON;  // a-layout words are 32-bit already
+  if (fam == QF_WORD32 || fam == QF_MIXEDWIDTH || fam == QF_HIGH32 || fam == QF_LANESPLIT) fam = QF_NONCANON;  // a-layout words are 32-bit already
   if (fam == QF_WORD32MAX) fam = QF_ALLMAX;
   for (uint64_t i = 0; i < n; i++)
     for (int k = 0; k < 4; k++) {
@@ -37,6 +37,7 @@ void q120_gen_a(rng_t* r, int fam, uint64_t n, uint64_t* x) {
     }
 }
 void q120_gen_b(rng_t* r, int fam, uint64_t n, uint64_t* x) {
+  const int narrow = (int)(rng_u64(r) & 3);  // QF_LANESPLIT: the lane that stays below 2^32 in every element
   for (uint64_t i = 0; i < n; i++)
     for (int k = 0; k < 4; k++) {
       uint64_t v;
@@ -49,6 +50,7 @@ void q120_gen_b(rng_t* r, int fam, uint64_t n, uint64_t* x) {
         case QF_WORD32: v = rng_u64(r) & 0xFFFFFFFFu; break;
         case QF_WORD32MAX: v = 0xFFFFFFFFu; break;
         case QF_HIGH32: v = rng_u64(r) << 32; break;
+        case QF_LANESPLIT: { v = rng_u64(r); if (k == narrow) v &= 0xFFFFFFFFu; else v |= 1ull << 40; break; }  // which lane is narrow depends on the vector length
         case QF_MIXEDWIDTH: { static const unsigned W[] = {16, 32, 48, 64}; unsigned w = W[mix64(i * 77 + 5) & 3]; v = rng_u64(r) >> (64 - w); if (rng_u64(r) & 1) v |= 1ull << (w - 1); break; }
         default: v = near_mult(r, Q120[k], 64); break;
       }
@@ -62,7 +64,7 @@ static uint32_t max_rep32(uint64_t v, uint64_t q) {
   return (uint32_t)(v + t * q);
 }
 void q120_gen_c(rng_t* r, int fam, uint64_t n, uint32_t* y) {
-  if (fam == QF_WORD32 || fam == QF_MIXEDWIDTH || fam == QF_HIGH32) fam = QF_NONCANON;
+  if (fam == QF_WORD32 || fam == QF_MIXEDWIDTH || fam == QF_HIGH32 || fam == QF_LANESPLIT) fam = QF_NONCANON;
   if (fam == QF_WORD32MAX) fam = QF_ALLMAX;
   for (uint64_t i = 0; i < n; i++)
     for (int k = 0; k < 4; k++) {
